@@ -78,6 +78,31 @@ impl<'a> net::Callback<Addr> for FailCb<'a> {
     }
 }
 
+/// The environment refuses the first datagram addressed to `addr`.
+pub struct FailAddrCb<'a> {
+    pub inner: &'a mut NetCb,
+    pub addr: Addr,
+    pub fails: u8,
+}
+
+impl<'a> net::Callback<Addr> for FailAddrCb<'a> {
+    type Error = SendFailed;
+    fn secure_random(&mut self, buffer: &mut [u8]) {
+        net::Callback::<Addr>::secure_random(self.inner, buffer)
+    }
+    fn send(&mut self, addr: Addr, data: &[u8]) -> Result<(), SendFailed> {
+        if addr == self.addr && self.fails > 0 {
+            self.fails -= 1;
+            return Err(SendFailed);
+        }
+        self.inner.out.push((addr, data.to_vec()));
+        Ok(())
+    }
+    fn time(&mut self) -> Timestamp {
+        net::Callback::<Addr>::time(self.inner)
+    }
+}
+
 fn random_for(addr: Addr, k: u8) -> [u8; 4] {
     [RANDOM_NET[0], RANDOM_NET[1], RANDOM_NET[2] ^ (addr + 1), RANDOM_NET[3].wrapping_add(k.wrapping_mul(17))]
 }
@@ -180,6 +205,9 @@ pub enum NAct {
     CounterWrap,
     Advance,
     NetTick,
+    /// a tick during which the environment refuses the first datagram addressed to this peer:
+    /// the error is reported, that datagram is lost, every other peer is served as usual
+    NetTickSendFails(Addr),
     RemoteTick(Addr),
 }
 
@@ -246,6 +274,8 @@ pub struct NBudgets {
     pub net_connects: u8,
     pub disconnects: u8,
     pub wraps: u8,
+    /// ticks during which the environment refuses one peer's first datagram
+    pub tick_faults: u8,
 }
 
 pub struct NSt {
@@ -401,6 +431,7 @@ impl NetM {
                 net_connects: cfg.net_connects,
                 disconnects: cfg.disconnects,
                 wraps: cfg.wraps,
+                tick_faults: if cfg.send_faults { 1 } else { 0 },
             },
             nserial: [0; 4],
             rserial: [0; 4],
@@ -987,17 +1018,42 @@ impl NetM {
                 let exp_after_loss: Vec<(Addr, Vec<u8>)> = exp.into_iter().skip(1).collect();
                 self.expect_same("disconnect-send-fails", vec![], vec![], out, exp_after_loss, true)
             }
-            NAct::NetTick => {
+            NAct::NetTick | NAct::NetTickSendFails(_) => {
+                let faulty: Option<Addr> = if let NAct::NetTickSendFails(a) = act { Some(a) } else { None };
+                if faulty.is_some() {
+                    s.b.tick_faults -= 1;
+                }
+                let mut reported = 0usize;
                 let (_, out) = self.net_call(s, 0, |n, cb| {
-                    let errs: Vec<Infallible> = n.tick(cb).collect();
-                    assert!(errs.is_empty());
+                    match faulty {
+                        None => {
+                            let errs: Vec<Infallible> = n.tick(cb).collect();
+                            assert!(errs.is_empty());
+                        }
+                        Some(a) => {
+                            let mut f = FailAddrCb { inner: cb, addr: a, fails: 1 };
+                            reported = n.tick(&mut f).count();
+                        }
+                    }
                     vec![]
                 });
                 let mut exp = Vec::new();
+                let mut ref_errors = 0usize;
                 let addrs: Vec<Addr> = s.refs.keys().cloned().collect();
                 for a in addrs {
-                    let (_, o) = self.ref_call(s, a, |e, cb, _| Ep::tick(e, cb));
+                    let (_, o) = self.ref_call(s, a, |e, cb, _| {
+                        if faulty == Some(a) {
+                            cb.fail_sends = 1;
+                        }
+                        Ep::tick(e, cb);
+                        if faulty == Some(a) && cb.fail_sends == 0 {
+                            ref_errors += 1;
+                        }
+                    });
                     exp.extend(o);
+                }
+                if faulty.is_some() && reported != ref_errors {
+                    return Some(("send-error-not-reported:tick".into(), format!("a tick whose environment refused {} datagram(s) reported {} error(s)", ref_errors, reported)));
                 }
                 // per-address order must be preserved; order across addresses is free
                 let per = |v: &Vec<(Addr, Vec<u8>)>| {
@@ -1164,6 +1220,11 @@ impl Model for NetM {
         if let Some(t) = s.net.needs_tick().to_opt() {
             if t.as_usecs_since_epoch() <= s.now {
                 out.push(NAct::NetTick);
+                if s.b.tick_faults > 0 {
+                    for p in &s.view.peers {
+                        out.push(NAct::NetTickSendFails(p.addr));
+                    }
+                }
             }
         }
         if s.b.advances > 0 {
